@@ -273,6 +273,11 @@ class FakeTRX(Transceiver):
 			log.debug("(%s) Recv FAKE_TOA cmd" % self)
 
 			# Parse and apply both base and threshold
+			if int(request[2]) < 0:
+				log.error("(%s) FAKE_TOA threshold shall not "
+					"be negative" % self)
+				return -1
+
 			self.toa256_base = int(request[1])
 			self.toa256_rand_threshold = int(request[2])
 			return 0
@@ -317,6 +322,11 @@ class FakeTRX(Transceiver):
 			log.debug("(%s) Recv FAKE_CI cmd" % self)
 
 			# Parse and apply both base and threshold
+			if int(request[2]) < 0:
+				log.error("(%s) FAKE_CI threshold shall not "
+					"be negative" % self)
+				return -1
+
 			self.ci_base = int(request[1])
 			self.ci_rand_threshold = int(request[2])
 			return 0
